@@ -310,6 +310,12 @@ func (m *Manager) AssignAddress(ctx context.Context, sessionID string, ipv4PoolI
 		}
 
 		m.mu.Lock()
+		if m.sessions[sessionID] != session || session.State == StateTerminating {
+			// Terminated while the allocation was in flight: nothing may be indexed for it
+			m.mu.Unlock()
+			_ = m.allocator.ReleaseIPv4(ctx, ip)
+			return fmt.Errorf("session terminated during address assignment: %s", sessionID)
+		}
 		if session.IPv4 != nil && !session.IPv4.Equal(ip) {
 			delete(m.byIP, session.IPv4.String()) // address changed: drop the old index entry
 		}
@@ -331,6 +337,13 @@ func (m *Manager) AssignAddress(ctx context.Context, sessionID string, ipv4PoolI
 			)
 		} else {
 			m.mu.Lock()
+			if m.sessions[sessionID] != session || session.State == StateTerminating {
+				m.mu.Unlock()
+				if ip != nil {
+					_ = m.allocator.ReleaseIPv6(ctx, ip)
+				}
+				return fmt.Errorf("session terminated during address assignment: %s", sessionID)
+			}
 			if session.IPv6 != nil && (ip == nil || !session.IPv6.Equal(ip)) {
 				delete(m.byIP, session.IPv6.String()) // address changed: drop the old index entry
 			}
